@@ -53,11 +53,20 @@ def _solve_one(args):
                 return idx, 'proved', None, 'z3-api', time.time() - t0
         except z3.Z3Exception:
             pass
-    s = z3.Solver()
-    s.set('timeout', Z3_TIMEOUT_MS)
-    s.set('random_seed', 1)
-    s.from_string(smt2)
-    r = s.check()
+    # a small portfolio of seeds: quantified VCs with div/mod are sensitive to the instantiation order, a second seed usually
+    # answers in seconds what the first one does not answer in a minute (and machine load must not flip a verdict)
+    r = z3.unknown
+    s = None
+    budget = Z3_TIMEOUT_MS
+    for seed, share in ((1, 0.25), (7, 0.25), (3, 0.25), (13, 0.4)):
+        s = z3.Solver()
+        s.set('timeout', max(1000, int(budget * share)))
+        s.set('random_seed', seed)
+        s.set('smt.random_seed', seed)
+        s.from_string(smt2)
+        r = s.check()
+        if r != z3.unknown:
+            break
     model = None
     backend = 'z3-api'
     if r == z3.sat:
